@@ -968,7 +968,7 @@ fn search(k: &mut Ctx, rng: &mut Rng, thorough: bool) {
         record(k, c);
     }
     let maxd = 8;
-    let scale = if thorough { 12 } else { 2 };
+    let scale = if thorough { 12 } else { 3 };
     // every shape 1..8 x 1..8 at least once (twice in the thorough tier) for the one-matrix oracle
     for rep in 0..(if thorough { 3 } else { 1 }) {
         for n in 1..=maxd {
@@ -1272,7 +1272,7 @@ mod algos {
             "lasso" => {
                 let alpha = *q.pick(&[0.001, 0.05, 0.5]);
                 let norm = q.bool();
-                fitted!(Lasso::fit(&x, &y, LassoParameters::default().with_alpha(alpha).with_normalize(norm)), |m| {
+                fitted!(Lasso::fit(&x, &y, LassoParameters::default().with_alpha(alpha).with_normalize(norm).with_tol(1e-9)), |m| {
                     put(&mut o, "coefficients", || vm(m.coefficients()));
                     put(&mut o, "intercept", || Val::F(m.intercept()));
                     put(&mut o, "predict", || rv(m.predict(&t)));
@@ -1282,7 +1282,7 @@ mod algos {
                 let alpha = *q.pick(&[0.001, 0.05, 0.5]);
                 let l1 = *q.pick(&[0.2, 0.5, 0.9]);
                 let norm = q.bool();
-                fitted!(ElasticNet::fit(&x, &y, ElasticNetParameters::default().with_alpha(alpha).with_l1_ratio(l1).with_normalize(norm)), |m| {
+                fitted!(ElasticNet::fit(&x, &y, ElasticNetParameters::default().with_alpha(alpha).with_l1_ratio(l1).with_normalize(norm).with_tol(1e-9)), |m| {
                     put(&mut o, "coefficients", || vm(m.coefficients()));
                     put(&mut o, "intercept", || Val::F(m.intercept()));
                     put(&mut o, "predict", || rv(m.predict(&t)));
@@ -1470,9 +1470,11 @@ mod algos {
     /// relative tolerance (times max(1, largest magnitude in the item)) by algorithm: the generic code is
     /// the same on all backends, only the primitives' rounding differs (sum / dot / matmul orders), and the
     /// iterative solvers stop by thresholds, so they may differ by a small multiple of their own tolerance
+    /// (the interior-point solver of Lasso / elastic net is run with tol = 1e-9 so that both runs converge
+    /// to the optimum rather than stop somewhere within the default 1e-4 duality gap)
     fn rel_tol(algo: &str) -> f64 {
         match algo {
-            "lasso" | "elastic-net" => 1e-6,
+            "lasso" | "elastic-net" => 1e-8,
             "logistic" => 1e-4,
             "svr-linear" | "svr-rbf" => 1e-6,
             _ => 1e-9,
@@ -1521,8 +1523,31 @@ mod algos {
                 }
             }
         }
+        // logistic regression: L-BFGS on the (for k >= 3 rank-deficient, often ill-conditioned) softmax
+        // objective may leave through its iteration cap or stall (DESIGN section 2, D13: final gradients up to
+        // 8e-3 of the initial one); the point it stops at is then determined by the rounding of every step,
+        // not "up to rounding".  Runs whose coefficients agree to 1e-6 are compared sharply (1e-4) incl.
+        // predictions; the others only loosely (2e-2) and without predictions (a query point near the
+        // decision boundary may flip) — counted.
+        let mut tol_rel = rel_tol(&c.algo);
+        if c.algo == "logistic" {
+            let mut worst = 0.0f64;
+            for bi in 1..3 {
+                for ((n0, x), (n1, y)) in res[0].1.iter().zip(res[bi].1.iter()) {
+                    if n0 == n1 && (n0 == "coefficients" || n0 == "intercept") {
+                        worst = worst.max(max_diff(x, y) / scale_of(x).max(scale_of(y)).max(1.0));
+                    }
+                }
+            }
+            if worst > 1e-6 {
+                v.notes.push("excluded:logistic-stalled-optimiser(loose-2e-2,predictions-skipped)".to_string());
+                tol_rel = 2e-2;
+                for (_, it) in res.iter_mut() {
+                    it.retain(|(n, _)| n != "predict");
+                }
+            }
+        }
         let (_, d) = &res[0];
-        let tol_rel = rel_tol(&c.algo);
         let mut bit_identical = true;
         for (name, it) in res.iter().skip(1) {
             if it.len() != d.len() || it.iter().zip(d.iter()).any(|((a, _), (b, _))| a != b) {
@@ -1656,13 +1681,13 @@ mod algos {
             let yy = if algo == "logistic" { y.iter().map(|v| if *v < -6.0 { 0.0 } else { 1.0 }).collect() } else { y.clone() };
             record(&Case { entry: "estimator".into(), family: "corpus".into(), algo: algo.into(), a: x.clone(), y: yy, q: x[..3].to_vec(), sub: 12, ..Default::default() });
         }
-        let reps = if thorough { 60 } else { 12 };
+        let reps = if thorough { 60 } else { 16 };
         for _ in 0..reps {
             for algo in DECOMPS.iter() {
                 record(&gen_decomp(rng, algo));
             }
         }
-        let reps = if thorough { 40 } else { 8 };
+        let reps = if thorough { 40 } else { 12 };
         for _ in 0..reps {
             for algo in REGRESSORS.iter().chain(CLASSIFIERS.iter()).chain(OTHERS.iter()) {
                 record(&gen_estimator(rng, algo));
